@@ -33,3 +33,9 @@ PROBES = list(PROBES) + ["integer-arguments-as-numpy-scalars"]
 # dimensions added in seeded round 9
 PROBES = list(PROBES) + ["full-range-data"]
 RULE = RULE + " Round 9: 30% of 8-bit scenarios use the whole range of the sample type (sums stay below 2^24: exact in float32); header key order / optional keys varied."
+
+# dimensions added in seeded round 10
+PROBES = list(PROBES) + ["task-switch-after-a-read"]
+RULE = RULE + (" Round 10: in 12% of the scenarios a scheduling point follows read k (k in 0..3) of one of the two calls: another task of the process - another beam of the same shape, "
+               "its own reader - runs the same reduction to completion before the interrupted call sees its data (the thread switch that the GIL release in readinto allows, made deterministic).")
+COMPONENTS = {**COMPONENTS, "simulated": list(COMPONENTS["simulated"]) + ["task scheduling between two reductions: a hand-over at the read seam (one switch per call, chosen by the scenario)"]}
